@@ -69,6 +69,15 @@ def fll_of(obj) -> str:
     return str(obj)
 
 
+def assign_function_variables(e, spec) -> None:
+    """The substitution-variables maps are (re-)assigned on the assembled engine, as a program that fills them in later
+    does (the constructor argument and the attribute are the same public field)."""
+    for vs, vo in zip(spec["inputs"] + spec["outputs"], e.input_variables + e.output_variables):
+        for ts, to in zip(vs["terms"], vo.terms):
+            if ts["cls"] == "Function" and ts.get("vars"):
+                to.variables = dict(ts["vars"])
+
+
 def precondition(spec, d) -> bool:
     atol2 = 2 * fl.settings.atol
     for v in spec["inputs"] + spec["outputs"]:
@@ -119,6 +128,7 @@ def check_engine(ctx, case) -> None:
     with fl.settings.context(alias=alias, decimals=d):
         mk = build.mk_engine_incremental if case.get("incremental") else build.mk_engine
         e = mk(spec, decimals=d, explicit_weights=True)
+        assign_function_variables(e, spec)
         code = export(e, form, formatted)
         try:
             e2 = rebuild(code, form, e.name, True)
@@ -135,7 +145,9 @@ def check_engine(ctx, case) -> None:
             ctx.fail("fll-differs", case, {"first": [(a, b) for a, b in zip(f1.split("\n"), f2.split("\n"))
                                                      if a != b][:3]})
         if precondition(spec, d):
-            o1 = c14_fll.process_rows(mk(spec, decimals=d, explicit_weights=True), rows)
+            e1 = mk(spec, decimals=d, explicit_weights=True)
+            assign_function_variables(e1, spec)
+            o1 = c14_fll.process_rows(e1, rows)
             o2 = c14_fll.process_rows(e2, rows)
             ctx.check("raise:RuntimeError" not in o1 and "raise:RuntimeError" not in o2, "engine-not-processable", case,
                       {"original": o1, "rebuilt": o2})
